@@ -234,7 +234,12 @@ class Interp:
                         if self.handler_matches(h, r, env):
                             if h.name:
                                 env[h.name] = r
-                            self.block(h.body, env)
+                            prev = env.get("__handling__")
+                            env["__handling__"] = r
+                            try:
+                                self.block(h.body, env)
+                            finally:
+                                env["__handling__"] = prev
                             break
                     else:
                         raise
@@ -245,12 +250,20 @@ class Interp:
             return
         if isinstance(st, ast.Raise):
             if st.exc is None:
+                cur = env.get("__handling__")
+                if isinstance(cur, Raised):
+                    raise cur
                 raise Raised("Exception", ("re-raise",))
             raise self.to_raised(self.ev(st.exc, env))
         if isinstance(st, ast.Delete):
             for t in st.targets:
                 if isinstance(t, ast.Subscript):
-                    del self.ev(t.value, env)[self.ev(t.slice, env)]
+                    if isinstance(t.slice, ast.Slice):
+                        lo = self.ev(t.slice.lower, env) if t.slice.lower is not None else None
+                        hi = self.ev(t.slice.upper, env) if t.slice.upper is not None else None
+                        del self.ev(t.value, env)[lo:hi]
+                    else:
+                        del self.ev(t.value, env)[self.ev(t.slice, env)]
                 elif isinstance(t, ast.Name):
                     env.pop(t.id, None)
             return
@@ -294,7 +307,12 @@ class Interp:
             else:
                 raise AnalysisError(f"abstract interpreter: attribute store on {type(base).__name__} in `{unparse(t)}`")
         elif isinstance(t, ast.Subscript):
-            self.ev(t.value, env)[self.ev(t.slice, env)] = v
+            if isinstance(t.slice, ast.Slice):
+                lo = self.ev(t.slice.lower, env) if t.slice.lower is not None else None
+                hi = self.ev(t.slice.upper, env) if t.slice.upper is not None else None
+                self.ev(t.value, env)[lo:hi] = list(v)
+            else:
+                self.ev(t.value, env)[self.ev(t.slice, env)] = v
         elif isinstance(t, (ast.Tuple, ast.List)):
             vals = list(v)
             star = [i for i, e in enumerate(t.elts) if isinstance(e, ast.Starred)]
@@ -357,6 +375,10 @@ class Interp:
             if self.module is not None:
                 if e.id in self.module.assigns:
                     v = self.ev(self.module.assigns[e.id], {})
+                    self.globals[e.id] = v
+                    return v
+                if e.id in getattr(self.module, "classes", {}):
+                    v = Obj(f"class {e.id}", _is_class=True, __name__=e.id)
                     self.globals[e.id] = v
                     return v
                 fn = self.module.functions.get(e.id)
@@ -574,7 +596,9 @@ class Interp:
                     return None
                 raise AnalysisError("abstract interpreter: setattr on a non-modelled object")
             if nm == "type" and len(args) == 1:
-                return args[0]._cls if isinstance(args[0], Obj) else type(args[0])
+                if isinstance(args[0], Obj):
+                    return args[0].__dict__["_type"] if args[0].__dict__.get("_type") is not None else args[0]._cls
+                return type(args[0])
             if nm == "next":
                 it = args[0]
                 if isinstance(it, (list, tuple, dict, set, str)):
@@ -608,7 +632,10 @@ class Interp:
     def isinstance_(self, v, spec) -> bool:
         specs = spec if isinstance(spec, tuple) else (spec,)
         for s in specs:
-            if isinstance(s, type):
+            if s is type:
+                if isinstance(v, type) or (isinstance(v, Obj) and v.__dict__.get("_is_class")):
+                    return True
+            elif isinstance(s, type):
                 if isinstance(v, s) and not isinstance(v, Obj):
                     return True
             elif isinstance(s, str):
